@@ -5,20 +5,3 @@ NOTES = ("All checks: python3 tools/check.py <id>. Each run regenerates lean/Sig
          "rebuilds and audits the Lean theorems (axioms limited to propext, Classical.choice, Quot.sound), rebuilds the "
          "overlay harness from the working tree and compares implementation, model and spec. See DESIGN.md.")
 
-# properties deliberately not claimed (reason); everything without a check is listed automatically
-NOT_APPLICABLE = {}
-
-CHECKS = {
-    "C17": dict(
-        text="Machine-checked Lean 4 theorems about a model of throttle.go defined over constants and comparison "
-             "operators regenerated from the source: delay monotone and <= 25 s for every count incl. the 64-bit "
-             "computation; for every history of whole attempts under a monotone clock the outcomes equal a counting "
-             "spec that never forgets (refused iff >= 10 failures within 30 min; delay = f(#failures within 12 h)); "
-             "independence of keys/actions for every op sequence; forgetting after 12 h. Tied to the code by facts "
-             "extraction plus a differential run of the real memoryThrottler with injected clock.",
-        note="Trusted: Lean kernel, extractor, harness/comparison, net.ParseIP; unbounded-Int time. Concurrent "
-             "stale write-back inside CheckBruteforce is only exhibited as a proved witness (partial).",
-        technique="Lean 4 proof (refinement of the entry-list model to a counting spec by induction over op lists) + "
-                  "regenerated constants + differential correspondence",
-    ),
-}
